@@ -157,7 +157,12 @@ def main():
             continue
         res = run_replay(w['module'], w['fn'], w.get('params', {}), w['call'], no_waivers=True)
         clause = failing(res)
-        if clause:
+        if clause and not clause.startswith(f.get('clause', '')):
+            # the witness fails, but not with the clause the finding is about (e.g. the harness signature changed and the
+            # stored call no longer fits): that is a defect of the machinery, not a reproduction of the finding
+            harness_errors.append('witness of known finding %s is stale: %s' % (f['id'], clause[:200]))
+            print('HARNESS-ERROR witness of known finding %s is stale: %s' % (f['id'], clause[:200]))
+        elif clause:
             print('KNOWN-FINDING: property=%s %s [%s] (witness %s still fails: %s)' % (
                 prop, f['text'], f['id'], w['call'], clause[:160]))
             known_clauses.append(f['id'])
